@@ -186,6 +186,9 @@ const smuggled = "GET /zz HTTP/1.1\r\nHost: smuggled.test\r\n\r\n"
 
 func genBody(rng *rand.Rand) ([]byte, string) {
 	switch k := rng.Intn(100); {
+	case k < 2:
+		// head plus body beyond one mebibyte (uploads): nothing about a request is bounded by the size of its head
+		return printable(rng, 1<<20+1+rng.Intn(300000)), "huge"
 	case k < 30:
 		return nil, "empty"
 	case k < 50:
